@@ -92,6 +92,16 @@ def eval_expr(e: ast.expr, env: dict[str, Any], oracle: Oracle | None = None) ->
             if k not in base:
                 raise Raised(ast.Raise(exc=ast.Name(id="KeyError", ctx=ast.Load()), cause=None))
             return base[k]
+        if isinstance(base, (str, bytes, list, tuple)) and not isinstance(e.slice, ast.Slice):
+            idx = eval_expr(e.slice, env, oracle)
+            try:
+                return base[idx]
+            except IndexError:
+                raise Raised(ast.Raise(exc=ast.Name(id="IndexError", ctx=ast.Load()), cause=None))
+            except TypeError:
+                raise TypeRaised("TypeError")
+        if base is None or isinstance(base, (int, float, bool)):
+            raise TypeRaised("TypeError")
         if isinstance(base, (str, bytes, list, tuple)):
             if isinstance(e.slice, ast.Slice):
                 lo = eval_expr(e.slice.lower, env, oracle) if e.slice.lower is not None else None
@@ -154,6 +164,9 @@ def eval_expr(e: ast.expr, env: dict[str, Any], oracle: Oracle | None = None) ->
         types = _builtin_types(e.args[1])
         if types is not None:
             return isinstance(eval_expr(e.args[0], env, oracle), types)
+        if _builtin_types(e.args[0]) is not None:
+            # isinstance(<type>, <value>): the second argument is no type -> TypeError at run time
+            raise TypeRaised("TypeError")
     if isinstance(e, ast.Call):
         f = ast.unparse(e.func)
         if f == "len" and len(e.args) == 1 and not e.keywords:
